@@ -5,6 +5,7 @@ import (
 	"go/ast"
 	"go/token"
 	"go/types"
+	"regexp"
 	"strings"
 
 	"golang.org/x/tools/go/ssa"
@@ -55,7 +56,20 @@ func (ex *Exec) call(fr *Frame, st *State, site ssa.Instruction, c *ssa.CallComm
 				}
 			}
 		}
-		if fresh {
+		viaCalls := false
+		if top := fr.topFrame(); top.con != nil {
+			for _, a := range top.con.Calls {
+				if a == txt {
+					viaCalls = true
+				}
+			}
+		}
+		if viaCalls {
+			// the effect of the callback is accounted for at the call sites of this function
+			// (contract clause `calls`); inside, it is assumed disjoint from what the contract talks about
+			ex.assumed[fmt.Sprintf("%s: the footprint of the callback parameter %s is disjoint from the locations this function's contract mentions (its effect is applied at every call site through `calls %s`)", fr.label, txt, txt)] = true
+			rets = ex.freshResults(st, sig, "cbret")
+		} else if fresh {
 			ex.assumed[fmt.Sprintf("%s: calls through the function value %s modify nothing and return freshly allocated values", fr.label, txt)] = true
 			for i := 0; i < sig.Results().Len(); i++ {
 				rt := sig.Results().At(i).Type()
@@ -109,6 +123,11 @@ func (ex *Exec) freshResults(st *State, sig *types.Signature, prefix string) []V
 // dispatch decides how a statically known callee is handled.
 func (ex *Exec) dispatch(fr *Frame, st *State, site ssa.Instruction, fn *ssa.Function, args, bindings []Val) []Val {
 	full := ssaFullName(fn)
+	if idx, ok := callbackModels[full]; ok && idx < len(args) {
+		ex.assumed["model "+full+": invokes its function argument any number of times and has no other effect on the program heap; its results are unconstrained"] = true
+		ex.callbackEffect(fr, st, site, args[idx])
+		return ex.freshResults(st, fn.Signature, "lib")
+	}
 	if r, ok := ex.modelCall(full, args, st, fn.Signature); ok {
 		return r
 	}
@@ -120,6 +139,11 @@ func (ex *Exec) dispatch(fr *Frame, st *State, site ssa.Instruction, fn *ssa.Fun
 		ex.checkRequires(fr, st, site, fn, con, args)
 		return ex.pureApply(fn, con, args, st, false)
 	case con != nil:
+		if len(bindings) > 0 {
+			sf, sb := ex.cfn, ex.cbind
+			ex.cfn, ex.cbind = fn, bindings
+			defer func() { ex.cfn, ex.cbind = sf, sb }()
+		}
 		return ex.modularCall(fr, st, site, fn, con, args)
 	case fn.Parent() != nil && len(fn.Blocks) > 0:
 		// closure of a function under verification: part of its body
@@ -381,6 +405,9 @@ func (ex *Exec) calleeEnv(fn *ssa.Function, con *Contract, args []Val, pre, post
 	pk := ex.prog.pkgOf(fn)
 	env := &SpecEnv{ex: ex, pkg: pk, pos: sc.pos, st: post, old: pre, objs: map[types.Object]Val{}, entry: map[types.Object]Val{}, label: funcLabel(fn)}
 	env.tparams = typeParamMap(fn)
+	if ex.cfn == fn {
+		env.cfn, env.cbind = fn, ex.cbind
+	}
 	for i, p := range ex.paramObjs(fn) {
 		if i < len(args) {
 			env.objs[p] = args[i]
@@ -446,6 +473,19 @@ func (ex *Exec) modularCall(fr *Frame, st *State, site ssa.Instruction, fn *ssa.
 	} else {
 		ex.applyModifies(st, pre, con.Modifies, func() *SpecEnv { return ex.calleeEnv(fn, con, args, pre, pre, nil) })
 	}
+	// function-valued parameters the callee may invoke: their frames are part of the effect
+	for _, pn := range con.Calls {
+		found := false
+		for i, p := range fn.Params {
+			if p.Name() == pn && i < len(args) {
+				found = true
+				ex.callbackEffect(fr, st, site, args[i])
+			}
+		}
+		if !found {
+			unsupp("calls %s: no such parameter of %s", pn, funcLabel(fn))
+		}
+	}
 	rets := ex.freshResults(st, fn.Signature, "r."+fn.Name()+".")
 	env := ex.calleeEnv(fn, con, args, pre, st, rets)
 	for _, cl := range con.Ensures {
@@ -463,6 +503,61 @@ func (ex *Exec) modularCall(fr *Frame, st *State, site ssa.Instruction, fn *ssa.
 		ex.fact(st, f)
 	}
 	return rets
+}
+
+// callbackEffect accounts for any number of invocations (including none) of a function value by a
+// callee: the locations its contract lists as modified become arbitrary. Preconditions of the
+// callback that do not mention its parameters are proved here; its postconditions are not assumed
+// (it may not run at all).
+func (ex *Exec) callbackEffect(fr *Frame, st *State, site ssa.Instruction, f Val) {
+	fv, ok := f.(*FuncVal)
+	if !ok {
+		if t, isT := f.(*Term); isT && t.Op == "fnp" {
+			if id, lit := t.Args[0].IsInt(); lit && closureByID[int(id)] != nil {
+				fv, ok = closureByID[int(id)], true
+			}
+		}
+	}
+	if !ok {
+		ex.note("%s: callback is an unknown function value: heap havoced", fr.label)
+		ex.preservingPrivate(st, st.heap.havocAll)
+		return
+	}
+	con := ex.contractFor(fv.Fn)
+	if con == nil || !con.HasMod {
+		ex.note("%s: callback %s has no frame: heap havoced", fr.label, funcLabel(fv.Fn))
+		ex.preservingPrivate(st, st.heap.havocAll)
+		return
+	}
+	con.Used = true
+	sf, sb := ex.cfn, ex.cbind
+	ex.cfn, ex.cbind = fv.Fn, fv.Bindings
+	defer func() { ex.cfn, ex.cbind = sf, sb }()
+	var args []Val
+	for _, p := range fv.Fn.Params {
+		var fs []*Term
+		args = append(args, freshVal(p.Type(), "cb."+p.Name(), &fs))
+		ex.addFacts(nil, fs)
+	}
+	// requires that talk about captured state only
+	if len(con.Requires) > 0 {
+		env := ex.calleeEnv(fv.Fn, con, args, st, st, nil)
+		for _, cl := range con.Requires {
+			mentions := false
+			for _, p := range fv.Fn.Params {
+				if regexp.MustCompile(`\b` + regexp.QuoteMeta(p.Name()) + `\b`).MatchString(cl.Text) {
+					mentions = true
+				}
+			}
+			if mentions {
+				ex.assumed["callbacks are invoked by library code only with arguments satisfying their preconditions"] = true
+				continue
+			}
+			ex.oblige(fr, st, "requires@callback", designator(fv.Fn), env.evalBool(cl.Text), site.Pos(), cl.Text)
+		}
+	}
+	pre := st.clone()
+	ex.applyModifies(st, pre, con.Modifies, func() *SpecEnv { return ex.calleeEnv(fv.Fn, con, args, pre, pre, nil) })
 }
 
 // applyModifies havocs the locations named by modifies clauses (evaluated in the pre-state).
@@ -613,6 +708,23 @@ func (e *SpecEnv) addrOf(x ast.Expr) *Term {
 			if a, ok := e.frame.allocByPos[obj.Pos()]; ok && a.Heap {
 				if p, ok := e.frame.regs[a].(*Term); ok {
 					return p
+				}
+			}
+			// variable captured by the closure under verification
+			for k, fv := range e.frame.fn.FreeVars {
+				if fv.Name() == obj.Name() && fv.Pos() == obj.Pos() && k < len(e.frame.bindings) {
+					if p, ok := e.frame.bindings[k].(*Term); ok {
+						return p
+					}
+				}
+			}
+		}
+		if e.cfn != nil {
+			for k, fv := range e.cfn.FreeVars {
+				if fv.Name() == obj.Name() && fv.Pos() == obj.Pos() && k < len(e.cbind) {
+					if p, ok := e.cbind[k].(*Term); ok {
+						return p
+					}
 				}
 			}
 		}
@@ -1255,7 +1367,6 @@ func (ex *Exec) bindCaptures(fr *Frame, env *SpecEnv, sc *specScope, reachNow *T
 	}
 }
 
-
 // havocUnder havocs every heap cell at or below the object `root` (all leaf sorts touched so far).
 func (ex *Exec) havocUnder(st *State, root *Term) {
 	p := BoundVar("hp", SPtr)
@@ -1267,7 +1378,6 @@ func (ex *Exec) havocUnder(st *State, root *Term) {
 		st.heap.set(n, nw)
 	}
 }
-
 
 // objectRoot: the object denoted by `x` in a frame item `x.*`: the pointee of a pointer, the
 // dynamic value of an interface, or the heap cell of an addressable (escaping) local variable.
